@@ -130,6 +130,11 @@ class Measurement:
             object to store QASM output.
         """
 
+        if self.classical_store is None:
+            raise NotImplementedError(
+                "QASM: a measurement without classical_store "
+                "cannot be exported."
+            )
         qasm_out.output(
             "measure q[{}] -> c[{}]".format(
                 self.targets[0], self.classical_store
